@@ -49,3 +49,6 @@ func (p *Peer) VerifQueued() int {
 	defer p.Unlock()
 	return len(p.frame)
 }
+
+// VerifStateBytes is the encoded full replicated state (what periodic gossip sends).
+func (s *Swarm) VerifStateBytes() []byte { return s.state.Encode()[0] }
